@@ -9,6 +9,7 @@ import (
 	"io"
 	"net/http"
 	"net/url"
+	"strings"
 	"sync"
 	"time"
 
@@ -25,7 +26,7 @@ import (
 func init() {
 	vsched.Register(&vsched.Harness{
 		Name: "shutdownx", Props: []string{"C08"}, Kind: "sched",
-		Doc: "node with one connected+subscribed connection; variant race: Node.Shutdown on one thread, a new connection's connect command on another (bound 1/2); variants after-*: Shutdown completes, then a connection attempt through the generic client API / SSE handler / HTTP-stream handler; oracle: once Shutdown has returned and everything settled no connection is registered in the hub or reports itself connected, and the attempt made after shutdown never ran the connect callback",
+		Doc: "node with one connected+subscribed connection; variant race (-lifo: newest-thread-first default order; -disc-in-handler: the new connection's connect handler calls Client.Disconnect): Node.Shutdown on one thread, a new connection's connect command on another (delay bound 2/3); at the instant Shutdown returns, and when the racing connect command returns after that, no connection is in the connected state; variants after-*: Shutdown completes, then a connection attempt through the generic client API / SSE handler / HTTP-stream handler; oracle: once Shutdown has returned and everything settled no connection is registered in the hub or reports itself connected, and the attempt made after shutdown never ran the connect callback",
 		Variants: func(tier string) []vsched.Variant {
 			b := 1
 			if tier == "thorough" {
@@ -38,6 +39,11 @@ func init() {
 				// the connect thread resumes, so "shutdown pass overtakes a connect in flight" costs one
 				// deviation instead of one per hand-off
 				{Name: "race-lifo", Bound: b + 1, Delay: true, LIFO: true, Shards: 8, BudgetS: 100},
+				// the connect handler of the new connection itself asks for a server-side disconnect
+				// (Client.Disconnect spawns the close, which waits for the handler to finish) while
+				// Shutdown races: Shutdown must still wait for that connection to be closed
+				{Name: "race-disc-in-handler", Bound: b + 1, Delay: true, Shards: 8, BudgetS: 100},
+				{Name: "race-disc-in-handler-lifo", Bound: b + 1, Delay: true, LIFO: true, Shards: 8, BudgetS: 100},
 				{Name: "after-generic", Bound: 0, BudgetS: 30},
 				{Name: "after-sse", Bound: 0, BudgetS: 30},
 				{Name: "after-http_stream", Bound: 0, BudgetS: 30},
@@ -56,7 +62,12 @@ func shutdownxBody(variant string) func() {
 		n.OnConnecting(func(ctx context.Context, e ConnectEvent) (ConnectReply, error) {
 			return ConnectReply{Credentials: &Credentials{UserID: "u"}}, nil
 		})
+		armed := false        // the concurrent phase has started
+		shutdownDone := false // Node.Shutdown has returned
 		n.OnConnect(func(c *Client) {
+			if armed && strings.HasPrefix(variant, "race-disc-in-handler") {
+				c.Disconnect(DisconnectForceNoReconnect)
+			}
 			vsched.Visible()
 			connects++
 			clients = append(clients, c)
@@ -112,18 +123,37 @@ func shutdownxBody(variant string) func() {
 		}
 
 		switch variant {
-		case "race", "race-lifo":
+		case "race", "race-lifo", "race-disc-in-handler", "race-disc-in-handler-lifo":
+			armed = true
 			vsched.Quiet(false)
 			var wg sync.WaitGroup
 			wg.Add(2)
 			go func() {
 				defer wg.Done()
 				_ = n.Shutdown(context.Background())
+				// "after node shutdown completes": observed at the instant Shutdown returns
+				vsched.Visible()
+				shutdownDone = true
+				for _, c := range clients {
+					if c.status == statusConnected {
+						vsched.Failf("connected-when-shutdown-returned:race", "Node.Shutdown returned while a connection is in the connected state")
+					}
+				}
 			}()
 			go func() {
 				defer wg.Done()
-				cl := vNewClient(n, vNewTransport(), nil)
+				// (A clause "no successful connect reply is written after Shutdown returned" was tried and
+				// withdrawn: a connection that was already closed before Shutdown began may still be
+				// flushing its queue, which is not a connection becoming connected.)
+				t := vNewTransport()
+				cl := vNewClient(n, t, nil)
 				cl.connect()
+				// the connect command has returned: a connection that is connected now although
+				// Shutdown had already returned became (or stayed) connected after shutdown completed
+				vsched.Visible()
+				if shutdownDone && cl.c.status == statusConnected {
+					vsched.Failf("connected-after-shutdown-returned:race", "the connect command finished with the connection in the connected state after Node.Shutdown had returned")
+				}
 			}()
 			wg.Wait()
 			vsched.WaitIdle()
@@ -142,7 +172,7 @@ func shutdownxBody(variant string) func() {
 		}
 		vsched.Logf("variant=%s connects=%d(before %d) hubClients=%d stillConnected=%d", variant, connects, connectsBefore, n.hub.NumClients(), stillConnected)
 		kind := "race"
-		if variant != "race" && variant != "race-lifo" {
+		if !strings.HasPrefix(variant, "race") {
 			kind = variant[len("after-"):]
 		}
 		if n.hub.NumClients() != 0 || stillConnected != 0 {
